@@ -243,7 +243,16 @@ def run_tags(ctx):
         plain22 = b"ID3\x02\x00\x00" + syncsafe(len(frames22)) + frames22
         u22 = ref_unsynch(frames22)
         uns22 = b"ID3\x02\x00\x80" + syncsafe(len(u22)) + u22
-        for name, a, b in (("v2.3", plain23, uns23), ("v2.4", plain24, uns24), ("v2.2", plain22, uns22)):
+        # v2.4: compressed (zlib) + data length indicator + unsynchronised frame: the unsynchronisation is undone first,
+        # then the frame is inflated (ID3v2.4 structure §4.1.2: flags k, p, n)
+        import zlib
+        zb = syncsafe(len(body)) + zlib.compress(body)
+        uzb = ref_unsynch(zb)
+        f24zu = b"PRIV" + syncsafe(len(uzb)) + b"\x00\x0b" + uzb + b"TIT2" + syncsafe(len(t)) + b"\x00\x00" + t
+        uns24z = b"ID3\x04\x00\x00" + syncsafe(len(f24zu)) + f24zu
+        uns24zg = b"ID3\x04\x00\x80" + syncsafe(len(f24zu)) + f24zu
+        for name, a, b in (("v2.3", plain23, uns23), ("v2.4", plain24, uns24), ("v2.2", plain22, uns22),
+                           ("v2.4-compressed", plain24, uns24z), ("v2.4-compressed+tagflag", plain24, uns24zg)):
             def load(x):
                 tag = ID3(io.BytesIO(x), translate=False)
                 return sorted((k, repr(v)) for k, v in tag.items())
